@@ -48,15 +48,24 @@ def run(ctx):
     for cfg in ctx.configs:
         ctx.current_config = cfg
         M = ctx.model(cfg)
+        from . import c03
         for u in families.subwaker_units(M, ("join", "try_join"), groups=False):
             rule_trans(ctx, M, u)
             rule_handoff(ctx, M, u)
             rule_drop(ctx, M, u)
+            # a child whose slot already holds its value is not polled again (the new value would overwrite - leak -
+            # the stored one, or a dropped child would be touched)
+            with ctx.renamed({"C03.GUARD": "C02.QUIET"}):
+                c03.rule_guard(ctx, u)
         for u in families.subwaker_units(M, ("zip",), groups=False):
             rule_zip(ctx, M, u)
+            with ctx.renamed({"C03.GUARD": "C02.ZIP"}):
+                c03.rule_guard(ctx, u)
         for u in families.passthrough_units(M, ("race_ok",)):
             if u.container != "vec":
                 rule_raceok(ctx, M, u)
+                with ctx.renamed({"C03.GUARD": "C02.RACEOK"}):
+                    c03.rule_guard(ctx, u)
         for u in families.subwaker_units(M, ("join", "try_join", "zip"), groups=False) + [
                 x for x in families.passthrough_units(M, ("race_ok",)) if x.container != "vec"]:
             rule_polldrop(ctx, M, u)
